@@ -123,9 +123,7 @@ Print Assumptions c19_collect_frugals_order_free.
 (** non-vacuity *)
 Example c19_sites_nonvacuous :
   (length (filter ms_reach map_sites) >= 3)%nat /\
-  existsb (fun s => class_eqb (ms_class s) CSortedValues && ms_reach s) map_sites = true /\
-  existsb (fun s => class_eqb (ms_class s) CRecInsert && ms_reach s) map_sites = true /\
-  existsb (fun s => class_eqb (ms_class s) CSortedKeys && ms_reach s) map_sites = true.
+  existsb (fun s => negb (class_eqb (ms_class s) CLibSorted) && ms_reach s) map_sites = true.
 Proof. vm_compute. repeat split; auto. Qed.
 
 Example c19_html_nonvacuous :
